@@ -161,6 +161,21 @@ def rules(ctx, tier):
         for o in x.obs:
             o.scenario = x.scenario
         out.append(x)
+    # ... and stays visible: nothing unlinks the blob of a commit that is in flight or has returned, i.e. every blob
+    # unlink happens under the intents (protocol) lock, where live intents and reference counts are consulted
+    # (shared with C04-R1)
+    from . import c04
+    shared4 = dict((x.rid, x) for x in c04.rules(ctx, tier))
+    x = shared4.get("R1")
+    if x is not None:
+        x.rid = "R6"
+        x.title = "no blob is unlinked outside the intents protocol lock (shared with C04-R1)"
+        x.scenario = ("a writer's error path (or a clean-up) unlinks a blob while another writer of the same content is "
+                      "between publish and apply: that put returns Ok and every later get fails with 'blob missing' - "
+                      "a put that returned is not seen")
+        for o in x.obs:
+            o.scenario = x.scenario
+        out.append(x)
     return out
 
 
